@@ -273,11 +273,11 @@ func (ts *TermStore) Eq(a, b *Term) *Term {
 			return ts.Not(a)
 		}
 	}
-	// eq(ite(c,k1,k2), k) with constants
-	if b.IsConst() && a.op == OpIte && a.b.IsConst() && a.c.IsConst() {
+	// eq(ite(c,k1,x), k) with constants: push the comparison into (linear) ite chains
+	if b.IsConst() && a.op == OpIte && (a.b.IsConst() || a.c.IsConst()) && a.w != 0 {
 		return ts.Ite(a.a, ts.Eq(a.b, b), ts.Eq(a.c, b))
 	}
-	if a.IsConst() && b.op == OpIte && b.b.IsConst() && b.c.IsConst() {
+	if a.IsConst() && b.op == OpIte && (b.b.IsConst() || b.c.IsConst()) && b.w != 0 {
 		return ts.Ite(b.a, ts.Eq(b.b, a), ts.Eq(b.c, a))
 	}
 	// eq(zext(x), const)
@@ -336,10 +336,10 @@ func (ts *TermStore) Cmp(op Op, a, b *Term) *Term {
 	if op == OpUle && a.IsConst() && a.k == 0 {
 		return ts.tt
 	}
-	if a.op == OpIte && b.IsConst() && a.b.IsConst() && a.c.IsConst() {
+	if a.op == OpIte && b.IsConst() && (a.b.IsConst() || a.c.IsConst()) {
 		return ts.Ite(a.a, ts.Cmp(op, a.b, b), ts.Cmp(op, a.c, b))
 	}
-	if b.op == OpIte && a.IsConst() && b.b.IsConst() && b.c.IsConst() {
+	if b.op == OpIte && a.IsConst() && (b.b.IsConst() || b.c.IsConst()) {
 		return ts.Ite(b.a, ts.Cmp(op, a, b.b), ts.Cmp(op, a, b.c))
 	}
 	return ts.mk(termKey{op: op}, a, b, nil)
@@ -727,4 +727,33 @@ func (ts *TermStore) Concat(a, b *Term) *Term {
 		return ts.Const(a.k<<uint(b.w)|b.k, int(a.w)+int(b.w))
 	}
 	return ts.mk(termKey{op: OpConcat, w: a.w + b.w}, a, b, nil)
+}
+
+// Rebuild constructs op(a,b,c) through the simplifying constructors.
+func (ts *TermStore) Rebuild(t *Term, a, b, c *Term) *Term {
+	switch t.op {
+	case OpNot:
+		return ts.Not(a)
+	case OpAnd:
+		return ts.And(a, b)
+	case OpOr:
+		return ts.Or(a, b)
+	case OpIte:
+		return ts.Ite(a, b, c)
+	case OpEq:
+		return ts.Eq(a, b)
+	case OpUlt, OpUle, OpSlt, OpSle:
+		return ts.Cmp(t.op, a, b)
+	case OpConcat:
+		return ts.Concat(a, b)
+	case OpExtract:
+		return ts.Extract(a, int(t.k>>8), int(t.k&0xff))
+	case OpZExt:
+		return ts.ZExt(a, int(t.w))
+	case OpSExt:
+		return ts.SExt(a, int(t.w))
+	case OpConst, OpTrue, OpFalse, OpVar, OpBVar:
+		return t
+	}
+	return ts.Bin(t.op, a, b)
 }
